@@ -1058,6 +1058,19 @@ class _FuncEval:
             op = _BINOPS.get(type(s.op), "?")
             nv = self.mk_binop(op, cur, v)
             if isinstance(s.target, ast.Name):
+                # `x += [..]` on a list (dict |=, set |=, ...) is an in-place mutation of the object x names -- possibly an alias of
+                # module/class-level state or of a parameter -- before it is a rebinding of x
+                inplace = v[0] in ("list", "dict", "set") or (v[0] == "comp" and v[1] in ("list", "set", "dict")) or \
+                    cur[0] in ("list", "dict", "set") or (cur[0] == "call" and cur[1] in (("builtin", "list"), ("builtin", "dict"), ("builtin", "set")))
+                if not inplace:
+                    try:
+                        ty = self.ev.types.type_of(cur, self)
+                    except Exception:
+                        ty = None
+                    inplace = ty is not None and (ty[0] in ("seq", "dict", "set") or ty in (("ext", "builtins.list"), ("ext", "builtins.dict"),
+                                                                                       ("ext", "builtins.set")))
+                if inplace:
+                    self.effect("mutcall", cur, f"__i{op}__", (v,), st, s)
                 self.bind(s.target.id, nv, st, s)
             elif isinstance(s.target, ast.Attribute):
                 self.effect("aug_attr", self.expr(s.target.value, st), s.target.attr, nv, st, s)
@@ -1565,12 +1578,15 @@ class _FuncEval:
                     flat.append(v)
             # constant simplification
             out = []
-            for v in flat:
-                if v[0] == "const":
+            for i_, v in enumerate(flat):
+                if v[0] == "const" and i_ + 1 < len(flat):
+                    # a constant operand that cannot decide the result is skipped -- but only when it is not the last operand:
+                    # `x or None` is None (not x) when x is a falsy non-None value such as timedelta(0), 0 or ""
                     if op == "and" and v[1]:
                         continue
                     if op == "or" and not v[1]:
                         continue
+                if v[0] == "const":
                     if op == "and" and not v[1] and isinstance(v[1], bool):
                         out.append(v)
                         break
